@@ -48,7 +48,7 @@ SIZES = {"quick": "{2}", "thorough": "{2, 3}"}
 EXPECTED_OPS = {"clone", "asSame", "asFlip", "asType", "row", "col", "slice", "mslice", "T", "elem", "iter", "itclone",
                 "set", "assign", "der", "vars", "fill", "reset", "swap", "reverse", "sort", "swaprows", "append",
                 "itnext", "itset", "asmatrix", "asvector", "constrow", "constcol", "diag",
-                "jiter", "tclone", "titer", "safeiter", "safefrom", "tins", "tdel"}
+                "jiter", "tclone", "titer", "safeiter", "safefrom", "tins", "tdel", "asConst", "grad"}
 EXPECTED_ENTRIES = 50
 
 
